@@ -82,9 +82,12 @@ func c01Judge(marks []*c01Mark, t time.Duration, inv, ret int64) (may, must bool
 	return may, must, fmt.Sprintf("successes %d(+%d optional) failures %d(+%d optional) in the trailing 10s", sDef, sOpt, fDef, fOpt)
 }
 
+var c01Nested bool // this run's unacceptable errors are ErrServiceUnavailable itself (the protected function calls through another, open, breaker)
+
 func c01Run(r *zsim.Run) {
 	timex.ZsimReset()
 	o := r.Ops
+	c01Nested = o.Intn(4) == 0
 	r.RandMode = o.Intn(3)
 	lock.Lock()
 	breakers = make(map[string]Breaker)
@@ -159,6 +162,9 @@ func c01Run(r *zsim.Run) {
 						return c01ErrSoft
 					case 2:
 						br.marks = append(br.marks, m)
+						if c01Nested {
+							return ErrServiceUnavailable // what a nested breaker that is open hands up: a failure like any other
+						}
 						return c01ErrBad
 					case 4:
 						br.marks = append(br.marks, m) // not ok: the predicate below rejects this call's nil error
@@ -302,7 +308,7 @@ func c01Run(r *zsim.Run) {
 								r.Failf("panic-not-reraised", "the protected function panicked but the call returned %v", err)
 								return
 							}
-						} else if want := []error{nil, c01ErrSoft, c01ErrBad, nil, nil}[outcome]; err != want || panicked != nil {
+						} else if want := []error{nil, c01ErrSoft, map[bool]error{false: c01ErrBad, true: ErrServiceUnavailable}[c01Nested], nil, nil}[outcome]; err != want || panicked != nil {
 							r.Failf("wrong-result", "the protected function returned %v but the call returned %v (panic %v)", want, err, panicked)
 							return
 						}
